@@ -102,77 +102,86 @@ func c18FromVector(id int, v []int) *c18Cfg {
 	return c
 }
 
-// c18Pairwise: greedy covering array over the factor levels (every pair of levels of every two factors occurs), then
-// `extra` random rows. Pure function of the rng.
-func c18Pairwise(rng *rand.Rand, levels []int, extra int) [][]int {
-	type pair struct{ i, a, j, b int }
-	unc := map[pair]bool{}
+// c18Covering: greedy covering array — every combination of levels of every THREE of the first `main` factors and of
+// every TWO of all factors occurs in some row. Pure function of the rng.
+func c18Covering(rng *rand.Rand, levels []int, main int) [][]int {
+	var groups [][]int // factor index tuples to cover
 	for i := 0; i < len(levels); i++ {
 		for j := i + 1; j < len(levels); j++ {
-			for a := 0; a < levels[i]; a++ {
-				for b := 0; b < levels[j]; b++ {
-					unc[pair{i, a, j, b}] = true
+			groups = append(groups, []int{i, j})
+			if j < main {
+				for k := j + 1; k < main; k++ {
+					groups = append(groups, []int{i, j, k})
 				}
 			}
 		}
 	}
+	key := func(g int, v []int) string {
+		var b strings.Builder
+		b.WriteString(strconv.Itoa(g))
+		for _, f := range groups[g] {
+			b.WriteByte('.')
+			b.WriteString(strconv.Itoa(v[f]))
+		}
+		return b.String()
+	}
+	type open struct {
+		g    int
+		vals []int
+	}
+	unc := map[string]open{}
+	for g, fs := range groups {
+		var rec func(k int, vals []int)
+		rec = func(k int, vals []int) {
+			if k == len(fs) {
+				v := make([]int, len(levels))
+				for x, f := range fs {
+					v[f] = vals[x]
+				}
+				unc[key(g, v)] = open{g, append([]int{}, vals...)}
+				return
+			}
+			for a := 0; a < levels[fs[k]]; a++ {
+				rec(k+1, append(vals, a))
+			}
+		}
+		rec(0, nil)
+	}
 	gain := func(v []int) int {
 		n := 0
-		for i := 0; i < len(v); i++ {
-			for j := i + 1; j < len(v); j++ {
-				if unc[pair{i, v[i], j, v[j]}] {
-					n++
-				}
+		for g := range groups {
+			if _, ok := unc[key(g, v)]; ok {
+				n++
 			}
 		}
 		return n
 	}
 	var rows [][]int
 	for len(unc) > 0 {
-		// seed candidates with one uncovered pair (deterministic choice: the smallest)
-		var keys []pair
-		for p := range unc {
-			keys = append(keys, p)
+		keys := make([]string, 0, len(unc))
+		for k := range unc {
+			keys = append(keys, k)
 		}
-		sort.Slice(keys, func(x, y int) bool {
-			a, b := keys[x], keys[y]
-			if a.i != b.i {
-				return a.i < b.i
-			}
-			if a.j != b.j {
-				return a.j < b.j
-			}
-			if a.a != b.a {
-				return a.a < b.a
-			}
-			return a.b < b.b
-		})
-		seed := keys[rng.Intn(len(keys))]
+		sort.Strings(keys) // map order must not leak into the case list
+		seed := unc[keys[rng.Intn(len(keys))]]
 		var best []int
 		bg := -1
-		for try := 0; try < 60; try++ {
+		for try := 0; try < 40; try++ {
 			v := make([]int, len(levels))
 			for k := range v {
 				v[k] = rng.Intn(levels[k])
 			}
-			v[seed.i], v[seed.j] = seed.a, seed.b
+			for x, f := range groups[seed.g] {
+				v[f] = seed.vals[x]
+			}
 			if g := gain(v); g > bg {
 				best, bg = v, g
 			}
 		}
 		rows = append(rows, best)
-		for i := 0; i < len(best); i++ {
-			for j := i + 1; j < len(best); j++ {
-				delete(unc, pair{i, best[i], j, best[j]})
-			}
+		for g := range groups {
+			delete(unc, key(g, best))
 		}
-	}
-	for k := 0; k < extra; k++ {
-		v := make([]int, len(levels))
-		for i := range v {
-			v[i] = rng.Intn(levels[i])
-		}
-		rows = append(rows, v)
 	}
 	return rows
 }
@@ -301,6 +310,7 @@ func c18Hosts(cfg *c18Cfg, thorough bool) []c18Host {
 	bases := []struct{ h, shape string }{
 		{"example.com", "exact"}, {"a.example.com", "sub"}, {"b.a.example.com", "deep"}, {"c.b.a.example.com", "deeper"},
 		{"other.test", "unrelated"}, {"xa.example.com", "lookalike"}, {"127.0.0.1", "ip"},
+		{"a.example.com.evil.test", "embedded"}, // a configured domain occurs inside the host without being its suffix
 	}
 	if len(cfg.Domains) == 0 && !thorough {
 		bases = bases[:3]
@@ -308,6 +318,9 @@ func c18Hosts(cfg *c18Cfg, thorough bool) []c18Host {
 	var out []c18Host
 	for bi, b := range bases {
 		for pi, port := range []string{"", ":8443"} {
+			if !thorough && pi != (bi+cfg.ID)%2 && b.shape != "sub" && b.shape != "deep" {
+				continue // quick tier: one port variant per host shape (alternating over configurations), both for the nested sub-domains
+			}
 			h := b.h + port
 			shape := b.shape
 			if port != "" {
@@ -704,8 +717,9 @@ type c18Flow struct {
 	a    *c18Client // standard identity
 	b    *c18Client // large identity (split session in the cookie store)
 	c    *c18Client // htpasswd form login
-	ok   bool
-	note string
+	large bool // also run the large-identity (split session) client
+	ok    bool
+	note  string
 }
 
 func (f *c18Flow) target(path string) string {
@@ -774,9 +788,11 @@ func (f *c18Flow) phase1() {
 		f.note = fmt.Sprintf("authenticated request: status %d", r.Code)
 		return
 	}
-	f.b = c18NewClient(f.run, cfg, f.h)
-	if !f.login(f.b, f.identity(true), "login-large") {
-		f.b = nil
+	if f.large {
+		f.b = c18NewClient(f.run, cfg, f.h)
+		if !f.login(f.b, f.identity(true), "login-large") {
+			f.b = nil
+		}
 	}
 	if cfg.HTPasswd {
 		f.c = c18NewClient(f.run, cfg, f.h)
@@ -813,8 +829,12 @@ func (f *c18Flow) phase2() {
 		return
 	}
 	cfg, p := f.cfg, f.cfg.P
-	r := f.a.do(p, "refresh-reissue", vfGET(f.target("/x")))
-	if r.Code == 200 && len(r.SetCookies()) > 0 {
+	refreshVia, okCode := f.target("/x"), 200
+	if (cfg.ID+len(f.h.Host))%2 == 1 {
+		refreshVia, okCode = cfg.Prefix+"/auth", 202 // the auth-only endpoint refreshes stale sessions too
+	}
+	r := f.a.do(p, "refresh-reissue", vfGET(refreshVia))
+	if r.Code == okCode && len(r.SetCookies()) > 0 {
 		f.run.Count("scenario_refresh_reissue", 1)
 	}
 	if f.b != nil {
@@ -943,7 +963,7 @@ func TestVerif_C18(t *testing.T) {
 	run := vfNewRun(t, "C18", "exploration")
 	run.SetRule("every raw Set-Cookie line of every response of the scenario library (unauthenticated visit, sign-in page, start, failed callbacks, callback success, split session, htpasswd form login, " +
 		"concurrent logins / per-request CSRF, refresh re-issue, tampered-cookie clearing, authorisation-failure clearing on a second instance, sign-out) under cookie-option configurations " +
-		"(pairwise-covering in quick, full product of {secure, httponly, samesite, path, domain set, name length, store} in thorough) x request hosts {exact, sub, deep, deeper, unrelated, look-alike, IP} x {no port, port} x {Host, X-Forwarded-Host in reverse-proxy mode, X-Forwarded-Host with reverse-proxy off}. " +
+		"(covering array in quick: all triples of {secure, httponly, samesite, path, domain set, name length, store} and all pairs with {csrf-per-request, reverse-proxy, csrf-expire, expire, skip-provider-button}; full product of {secure, httponly, samesite, path, domain set, name length, store} in thorough) x request hosts {exact, sub, deep, deeper, unrelated, look-alike, IP} x {no port, port} x {Host, X-Forwarded-Host in reverse-proxy mode, X-Forwarded-Host with reverse-proxy off}. " +
 		"cell = (cookie kind, deletion?, attribute vector, domain-rule case, host shape). Domain reading in force: port ignored (fix 09579bc / F8)")
 	run.Assume("the client returns every cookie it was given regardless of Secure/Domain/Path matching (the proxy never sees those attributes on a request); application and proxy paths are placed under --cookie-path",
 		"hosts for which plain-suffix and label-boundary matching disagree (xa.example.com vs a.example.com) accept either reading's Domain",
@@ -974,18 +994,11 @@ func TestVerif_C18(t *testing.T) {
 		}
 		rec(0, nil)
 	} else {
-		vectors = c18Pairwise(run.Rng, c18Levels, 0)
-		for len(vectors) < 48 {
-			v := make([]int, len(c18Levels))
-			for i := range v {
-				v[i] = run.Rng.Intn(c18Levels[i])
-			}
-			vectors = append(vectors, v)
-		}
+		vectors = c18Covering(run.Rng, c18Levels, 7)
 	}
 	run.Extra("configurations", len(vectors))
 	htLeft := 30 // inotify budget
-	batch := 64
+	batch := run.Env.Pick(256, 64)
 	flows := 0
 	for lo := 0; lo < len(vectors); lo += batch {
 		hi := lo + batch
@@ -995,11 +1008,11 @@ func TestVerif_C18(t *testing.T) {
 		var cfgs []*c18Cfg
 		for k := lo; k < hi; k++ {
 			cfg := c18FromVector(k, vectors[k])
-			if htLeft > 0 && (k%3 == 0 || !run.Env.Thorough() && k%2 == 0) {
+			if htLeft > 0 && k%3 == 0 {
 				cfg.HTPasswd = true
 				htLeft--
 			}
-			withP2 := !run.Env.Thorough() || k%4 == 0
+			withP2 := k%run.Env.Pick(3, 4) == 0
 			if err := cfg.build(w, ht, withP2); err != nil {
 				t.Fatalf("C18 rig: configuration %s: %v", cfg.describe(), err)
 			}
@@ -1007,8 +1020,9 @@ func TestVerif_C18(t *testing.T) {
 		}
 		var fl []*c18Flow
 		for _, cfg := range cfgs {
-			for _, h := range c18Hosts(cfg, run.Env.Thorough()) {
-				fl = append(fl, &c18Flow{run: run, w: w, cfg: cfg, h: h})
+			for hi, h := range c18Hosts(cfg, run.Env.Thorough()) {
+				// quick tier: the (expensive) split-session client runs for every second host of a configuration
+				fl = append(fl, &c18Flow{run: run, w: w, cfg: cfg, h: h, large: run.Env.Thorough() || (hi+cfg.ID)%2 == 0})
 			}
 		}
 		flows += len(fl)
@@ -1035,5 +1049,6 @@ func TestVerif_C18(t *testing.T) {
 			t.Fail()
 		}
 	}
-	run.Finish(int64(run.Env.Pick(8000, 150000)), run.Env.Pick(600, 5000))
+	run.RaceCheck("")
+	run.Finish(int64(run.Env.Pick(11000, 150000)), run.Env.Pick(1300, 5000))
 }
